@@ -88,7 +88,7 @@ func buildFile(res uint16, evs []tev, style int) ([]byte, error) {
 	t1.Add(100000, midi.NoteOn(1, 61, 100))
 	t1.Add(960, midi.NoteOff(1, 61))
 	t1.Add(0, midi.NoteOn(1, 62, 100)) // delta 0 right after an event of another type that carries the delta
-	t1.Close(0)
+	t1.Close(7) // (an end of track with a delta of its own: the next track starts at tick 0 all the same)
 	s.Add(t0)
 	s.Add(t1)
 	var buf bytes.Buffer
@@ -130,7 +130,7 @@ func feature(evs []tev) string {
 // takes the chunks as they come and stops at the end of the data); style 5:
 // the tempo track is the second chunk; style 6: likewise, header says format 2.
 func judgeMap(res uint16, evs []tev) {
-	for style := 0; style < 7; style++ {
+	for style := 0; style < 8; style++ {
 		if style > 0 && len(evs) == 0 {
 			break
 		}
@@ -155,7 +155,7 @@ func judgeMapStyle(res uint16, evs []tev, style int) {
 		ctx.Guard(false, "cannot build file: %v", err)
 		return
 	}
-	styleNote = map[int]string{3: ":read-with-logging", 4: ":header-declares-no-track", 5: ":tempo-track-second", 6: ":format-2-tempo-track-second"}[style]
+	styleNote = map[int]string{3: ":read-with-logging", 4: ":header-declares-no-track", 5: ":tempo-track-second", 6: ":format-2-tempo-track-second", 7: ":tempo-track-last-and-cut-before-its-end-of-track"}[style]
 	defer func() { styleNote = "" }()
 	var opts []smf.ReadOption
 	if style == 3 {
@@ -165,7 +165,7 @@ func judgeMapStyle(res uint16, evs []tev, style int) {
 		data = append([]byte(nil), data...)
 		data[10], data[11] = 0, 0
 	}
-	if style == 5 || style == 6 {
+	if style == 5 || style == 6 || style == 7 {
 		l0 := 8 + int(data[18])<<24 + int(data[19])<<16 + int(data[20])<<8 + int(data[21])
 		sw := append([]byte(nil), data[:14]...)
 		sw = append(sw, data[14+l0:]...)
@@ -173,10 +173,17 @@ func judgeMapStyle(res uint16, evs []tev, style int) {
 		if style == 6 {
 			sw[9] = 2
 		}
+		if style == 7 {
+			// the data ends in front of the last track's end of track (03 FF 2F 00)
+			sw = sw[:len(sw)-3] // (the delta byte is still there)
+		}
 		data = sw
 	}
 	var s *smf.SMF
 	c := engine.Catch(func() { s, err = smf.ReadFrom(bytes.NewReader(data), opts...) })
+	if style == 7 && !c.Panicked && (err != nil || s == nil) {
+		return // a cut file may be refused; if it is accepted, its times follow the tempo events it holds
+	}
 	if c.Panicked || err != nil {
 		report("tempomap:read:"+feature(evs), res, evs, -1, fmt.Sprintf("cannot read the file: %v %s", err, c.Value))
 		return
